@@ -58,6 +58,7 @@ PROPS = {
             {"name": "c03_tamper", "quick": 3000, "thorough": 150000, "offset": 1, "chunk": 40, "run_timeout": 120, "crash_ok": True},
             {"name": "c03_push", "quick": 3000, "thorough": 200000, "offset": 2, "chunk": 100, "run_timeout": 120},
             {"name": "c03_ba_tamper", "quick": 2000, "thorough": 100000, "offset": 3, "chunk": 40, "run_timeout": 120, "crash_ok": True},
+            {"name": "c03_tamper", "quick": 0, "thorough": 40000, "offset": 4, "chunk": 40, "run_timeout": 120, "crash_ok": True, "flavour": "mt", "thorough_only": True},
         ],
         "expected_probes": ["tamper_rejected_or_aborted", "site_bit", "site_generate_proof", "site_challenge", "site_diff", "site_p_times_q",
                             "honest_batch_accepted", "flip_rejected", "flip_entry_0", "flip_entry_6", "flip_in_later_batch", "width_3", "width_512", "pushed_in_permuted_order",
@@ -98,6 +99,7 @@ PROPS = {
             {"name": "c07_ba", "quick": 1200, "thorough": 60000, "offset": 2, "chunk": 40, "run_timeout": 120},
             {"name": "c07_conv", "quick": 96, "thorough": 4000, "offset": 3, "chunk": 3, "run_timeout": 300},
             {"name": "c07_agg", "quick": 1500, "thorough": 60000, "offset": 5, "chunk": 50, "run_timeout": 120},
+            {"name": "c07_circ", "quick": 0, "thorough": 30000, "offset": 6, "chunk": 25, "run_timeout": 120, "flavour": "mt", "thorough_only": True},
             {"name": "c04_mac", "quick": 600, "thorough": 30000, "offset": 4, "chunk": 50, "run_timeout": 120},
         ],
         "expected_probes": ["operand_pairs", "exhaustive_small_width", "unequal_widths", "proof_batches", "ba_select", "ba_sat_sub", "ba_exhaustive", "conv_np1", "conv_np16", "prf_records", "vec16_records", "agg_rows", "agg_calls_sharing_counters", "agg_odd_chunk_then_another", "agg_saturated_buckets"],
@@ -114,6 +116,10 @@ PROPS = {
         "scenarios": [
             {"name": "c04_mac", "quick": 2000, "thorough": 100000, "offset": 1, "chunk": 50, "run_timeout": 120},
             {"name": "c04_tamper", "quick": 6000, "thorough": 300000, "offset": 2, "chunk": 100, "run_timeout": 120, "crash_ok": True},
+            # the same workloads on the build with the `multi-threading` feature: the records of one helper are separate tasks
+            # whose steps interleave at every lock of the shared validator state
+            {"name": "c04_mac", "quick": 1000, "thorough": 60000, "offset": 3, "chunk": 50, "run_timeout": 120, "flavour": "mt"},
+            {"name": "c04_tamper", "quick": 0, "thorough": 60000, "offset": 4, "chunk": 100, "run_timeout": 120, "crash_ok": True, "flavour": "mt", "thorough_only": True},
         ],
         "stat_rules": [{"num": "fp31_tamper_accepted_wrong", "den": "fp31_tamper_delivered", "p0": 0.1, "class": "mac_fp31_acceptance_rate", "scenario": "c04_tamper"}],
         "expected_probes": ["mac_batches", "partial_last_batch", "prf_records", "tamper_rejected_or_aborted", "fp31_tamper_delivered"],
